@@ -289,7 +289,7 @@ pub fn run() {
     );
     c.assume("independent evaluator O2 (harness/src/oracle/eval.rs) and exact ring O1 are correct (self-tested at start, cross-checked against O3)");
     c.assume("termination is decided in bounded-progress form: rewrite budget 10^4 + 50*(V+E)^2 per call");
-    let (ms, n_rand) = t.pick((9usize, 500usize), (13usize, 40_000usize));
+    let (ms, n_rand) = t.pick((9usize, 3000usize), (13usize, 60_000usize));
     par_cases("arbitrary-exact", n_rand, move |r, i| {
         let d = gen_random(r, &DiagParams { max_spiders: ms, max_bnd: 4, pool: PhasePool::Exact, graph_like: false, bare_wires: true, var_prob: 0.0 });
         check_desc("arbitrary-exact", i, r, &d);
